@@ -838,7 +838,7 @@ fn shadow_case<F: Fl + ndarray::NdFloat + std::ops::AddAssign>(
 }
 
 pub fn run(ctx: &Ctx, rep: &mut Report) {
-    for case in ctx.case_ids("table", 240, 100_000) {
+    for case in ctx.case_ids("table", 240, 2_000_000) {
         let mut g = ctx.rng("table", case);
         match case % 8 {
             0 => table_case::<f64, f64>(ctx, rep, case, &mut g),
@@ -851,7 +851,7 @@ pub fn run(ctx: &Ctx, rep: &mut Report) {
             _ => table_case::<usize, f64>(ctx, rep, case, &mut g),
         }
     }
-    for case in ctx.case_ids("shadow", 160, 120_000) {
+    for case in ctx.case_ids("shadow", 160, 1_500_000) {
         let mut g = ctx.rng("shadow", case);
         if case % 2 == 0 {
             shadow_case::<f64>(ctx, rep, case, &mut g);
